@@ -199,6 +199,24 @@ def run(F, chk):
             chk.violation("R4.3", "C04/R4.3:SetBlockOrder:blockSizes-gate", where(sbo),
                           "SetBlockOrder permutes blockSizes outside the version gate under which the table exists")
     remaps = {"GetChildRefs": False, "GetPtrs": False}
+    # effect summary of SetBlockOrder (helper lambdas and functions composed in): an assignment `X.index = newOrder[X.index]` through
+    # an element of the very collection that the enumerator filled
+    import paths as _paths
+
+    def _prim(n, env, fn, st):
+        if n["k"] == "Assign" and n["op"] == "=":
+            pth = env.path(n["l"])
+            if pth is not None and pth[-1] == "index":
+                sub = n["r"]["k"] == "Subscript"
+                return [_paths.Event(pth, "remap", {"rhs": show(n["r"]), "same_element": sub and env.path(n["r"]["idx"]) == pth,
+                                                     "table": show(n["r"]["base"]) if sub else None})]
+            return None
+        if n["k"] == "Call" and n.get("ext"):
+            return []
+        return None
+
+    S3 = _paths.Summarizer(F, _prim, node_kinds=("Call", "OpCall", "Construct", "Assign"))
+    evs3 = [e for e in S3.events(sbo["id"]) if e.kind == "remap"]
     for loop in walk(body):
         if loop["k"] != "RangeFor":
             continue
@@ -206,13 +224,16 @@ def run(F, chk):
             calls = [x for x in walk(loop["body"]) if x["k"] == "Call" and x.get("short") == k and x.get("virt")]
             if not calls:
                 continue
-            coll = show(calls[0]["args"][0])
-            for inner in walk(loop["body"]):
-                if inner["k"] == "RangeFor" and show(inner["range"]) == coll:
-                    v = inner["var"]["name"]
-                    if any(x["k"] == "Assign" and show(x["l"]) == v + ".index" and show(x["r"]) == "%s[%s.index]" % (param, v)
-                           for x in walk(inner["body"])):
-                        remaps[k] = True
+            a0 = calls[0]["args"][0]
+            while is_node(a0) and a0["k"] in ("Cast", "Unary"):
+                a0 = a0["e"]
+            if not (is_node(a0) and a0["k"] == "Ref"):
+                continue
+            for e in evs3:
+                root = e.path[0]
+                if root[0] == "$v" and root[1] == a0["id"] and e.path[1:] == ("[*]", "index") and e.info.get("table") == param \
+                        and e.info.get("same_element"):
+                    remaps[k] = True
     for k, ok in remaps.items():
         chk.instance(R3, ok=ok, sample={"remap": k, "ok": ok})
         if not ok:
